@@ -16,8 +16,17 @@ import re
 import vlib
 
 PROOF_MODULES = []
-OBLIGATIONS = []
-OWN_FILES = ["C08/FuncModel.v"]
+OBLIGATIONS = [
+    "C08/P_trig_simplify_sound.v", "C08/P_ctor_sound.v", "C08/P_tab_value_sound.v",
+    "C08/P_floor_ceiling_truncate_exact.v", "C08/P_floor_complex_refuted.v", "C08/P_sign_exact.v",
+    "C08/P_sign_complex_refuted.v", "C08/P_abs_exact.v", "C08/P_max_min_fold_sound.v", "C08/P_kronecker_levi_exact.v",
+    "C08/P_gamma_exact.v", "C08/P_gamma_half_refuted.v", "C08/P_primepi_exact.v", "C08/P_primepi_refuted.v",
+    "C08/P_nonvacuous.v",
+]
+# C08's own Coq files in dependency order (until they are listed in coq/_CoqProject they are compiled here,
+# directly with coqc, whenever a source or a shared library they load has changed)
+OWN_FILES = ["C08/FuncModel.v", "C08/FuncSpec.v", "C08/TrigIdent.v", "C08/TrigArith.v", "C08/TrigProofs.v",
+             "C08/CtorProofs.v", "C08/ExactProofs.v"]
 SHARED_DEPS = ["Base/Prelude.vo", "Base/Word64.vo", "Num/NumDefs.vo", "Gen/TypeCodes.vo",
                "Expr/ExprDefs.vo", "Expr/Hash.vo", "Expr/Cmp.vo", "Expr/Wf.vo", "Expr/IO.vo"]
 
